@@ -142,14 +142,14 @@ def module_src(sp, with_harness, sabotage=False):
     return src
 
 
-def probe_accepts(ctx, sps):
+def probe_accepts(ctx, sps, nutype_features="", extra_deps=""):
     """rustc verdict per spelling: iterate `cargo check` removing the modules rustc blames until the crate compiles"""
     wdir = ctx["wdir"]
     pdir = os.path.join(wdir, "accept_probe")
     if os.path.exists(pdir):
         shutil.rmtree(pdir)
     os.makedirs(os.path.join(pdir, "src"))
-    open(os.path.join(pdir, "Cargo.toml"), "w").write('[package]\nname = "accept_probe"\nversion = "0.0.0"\nedition = "2021"\n[dependencies]\nnutype = { path = "%s/nutype" }\n[workspace]\n' % REPO)
+    open(os.path.join(pdir, "Cargo.toml"), "w").write('[package]\nname = "accept_probe"\nversion = "0.0.0"\nedition = "2021"\n[dependencies]\nnutype = { path = "%s/nutype"%s }\n%s[workspace]\n' % (REPO, (', features = [%s]' % nutype_features) if nutype_features else "", extra_deps))
     shutil.copy(os.path.join(REPO, "Cargo.lock"), os.path.join(pdir, "Cargo.lock"))
     alive = list(sps)
     rejected = {}
